@@ -125,6 +125,12 @@ run("claim-size-absent", BASE_MODS, {"ksk_a": {k: v for k, v in ceremony.ksk_def
 run("claim-exponent-absent", BASE_MODS, {"ksk_a": {k: v for k, v in ceremony.ksk_def(KA).items() if k != "rsa_exponent"}})
 run("claim-ec-token-rsa-config", mods_for(S.pair("Ka", KA_EC)), {"ksk_a": ceremony.ksk_def(KA, with_tag=False, with_ds=False)})
 run("claim-rsa-token-ec-config", BASE_MODS, {"ksk_a": dict(ceremony.ksk_def(KA_EC, with_tag=False, with_ds=False))}, zs=[[ZEC]])
+# every algorithm name the configuration accepts, claimed for an RSA key on the token: only the three RSA algorithms are its family
+for name_ in sorted(S.specs.ALGNUM):
+    for role_schema in ({1: {"publish": ["ksk_a"], "sign": ["ksk_a"], "revoke": []}}, {1: {"publish": ["ksk_a", "ksk_b"], "sign": ["ksk_b"], "revoke": []}},
+                        {1: {"publish": ["ksk_b"], "sign": ["ksk_b"], "revoke": ["ksk_a"]}}):
+        run("claim-algorithm-name-for-rsa-key", BASE_MODS, {"ksk_a": dict(ceremony.ksk_def(KA, with_tag=False, with_ds=False), algorithm=name_), "ksk_b": ceremony.ksk_def(KB)},
+            schema=role_schema, nb=1, desc={"configured_algorithm": name_, "roles": {k: v for k, v in role_schema[1].items() if v}}, strict=False)
 run("claim-ec-right", mods_for(S.pair("Kec", KEC)), {"ksk_a": ceremony.ksk_def(KEC)}, zs=[[ZEC]])
 run("claim-ec-p384-config-p256-key", mods_for(S.pair("Kec", KEC)), {"ksk_a": dict(ceremony.ksk_def(KEC, with_tag=False, with_ds=False), algorithm="ECDSAP384SHA384")}, zs=[[ZEC]])
 run("claim-rsasha512-config", BASE_MODS, {"ksk_a": dict(ceremony.ksk_def(KA, with_tag=False, with_ds=False), algorithm="RSASHA512")}, strict=False)
